@@ -20,6 +20,9 @@ use std::ops::DerefMut;
 use std::path::Path;
 use std::sync::{Arc, Mutex, RwLock};
 
+#[cfg(datatrash_mos_verif)]
+mod verif_hooks;
+
 pub struct TestRunner {
     ctx: Arc<Mutex<CodegenContext>>,
     tree: Arc<ParseTree>,
@@ -192,6 +195,16 @@ impl TestRunner {
         let mut cpu = MOS6502::new();
         cpu.set_program_counter(active_test.data.as_i64() as u16);
 
+        #[cfg(datatrash_mos_verif)]
+        verif_hooks::emit(serde_json::json!({
+            "ev": "start",
+            "test": test_path.to_string(),
+            "pc": active_test.data.as_i64(),
+            "bank": segment_bank.to_string(),
+            "base": test_bank.range().start,
+            "data": test_bank.data(),
+        }));
+
         ensure_ram_fn(
             &mut ctx,
             Box::new(TestRunnerMemoryAccessor { ram: ram.clone() }),
@@ -269,6 +282,30 @@ impl TestRunner {
             }
         }
 
+        #[cfg(datatrash_mos_verif)]
+        {
+            let pc = self.cpu.get_program_counter() as usize;
+            let ram = self.ram.read().unwrap();
+            let fired: Vec<serde_json::Value> = active_assertions
+                .iter()
+                .map(|a| {
+                    let loc = self.tree.code_map.look_up_span(a.expr.span);
+                    serde_json::json!({"line": loc.begin.line + 1, "col": loc.begin.column + 1})
+                })
+                .collect();
+            verif_hooks::emit(serde_json::json!({
+                "ev": "step",
+                "pc": pc,
+                "a": self.cpu.get_accumulator(),
+                "x": self.cpu.get_x_register(),
+                "y": self.cpu.get_y_register(),
+                "sp": self.cpu.get_stack_pointer(),
+                "p": self.cpu.get_status_register(),
+                "op": [ram.ram[pc], ram.ram[(pc + 1) & 0xffff], ram.ram[(pc + 2) & 0xffff]],
+                "fired": fired,
+            }));
+        }
+
         for mut trace in active_traces {
             let fmt = match trace.exprs.is_empty() {
                 true => format_cpu_details(&self.cpu, false),
@@ -303,6 +340,16 @@ impl TestRunner {
                     .with_message(message)
                     .with_labels(vec![assertion.expr.span.to_label()]);
                 let diagnostic = Diagnostics::from(diag).with_code_map(&self.tree.code_map);
+                #[cfg(datatrash_mos_verif)]
+                {
+                    let loc = self.tree.code_map.look_up_span(assertion.expr.span);
+                    verif_hooks::emit(serde_json::json!({
+                        "ev": "fail",
+                        "line": loc.begin.line + 1,
+                        "col": loc.begin.column + 1,
+                        "msg": diagnostic.to_string(),
+                    }));
+                }
                 let failure = TestFailure {
                     diagnostic,
                     assertion: Some(assertion),
@@ -318,6 +365,8 @@ impl TestRunner {
 
         if self.ram.read().unwrap().ram[self.cpu.get_program_counter() as usize] == 0 {
             // BRK, test succeeded
+            #[cfg(datatrash_mos_verif)]
+            verif_hooks::emit(serde_json::json!({"ev": "pass"}));
             return Ok(ExecuteResult::TestSuccess(self.num_cycles));
         }
 
